@@ -122,8 +122,9 @@ class AuthSession(object):
         if response == b'*':
             raise AuthenticationCanceled()
         try:
-            return base64.b64decode(response)
-        except TypeError:
+            # Strictly: characters outside the alphabet are not skipped.
+            return base64.b64decode(response, validate=True)
+        except ValueError:
             raise InvalidAuthString()
 
     def server_attempt(self, arg):
